@@ -437,7 +437,8 @@ func (p *parser) substituteAmpersandsInCompoundSelector(
 	sel.NestingSelectorLocs = nil
 
 	// "div { :is(&.foo) {} }" => ":is(div.foo) {}"
-	for _, ss := range sel.SubclassSelectors {
+	didCloneSubclassSelectors := false
+	for i, ss := range sel.SubclassSelectors {
 		if class, ok := ss.Data.(*css_ast.SSPseudoClassWithSelectorList); ok {
 			outer := make([]css_ast.ComplexSelector, 0, len(class.Selectors))
 			for _, complex := range class.Selectors {
@@ -447,7 +448,17 @@ func (p *parser) substituteAmpersandsInCompoundSelector(
 				}
 				outer = append(outer, css_ast.ComplexSelector{Selectors: inner})
 			}
-			class.Selectors = outer
+
+			// Don't mutate the original selector because this function may be called
+			// multiple times on the same selector with a different replacement each
+			// time (when the parent rule has more than one selector)
+			if !didCloneSubclassSelectors {
+				didCloneSubclassSelectors = true
+				sel.SubclassSelectors = append([]css_ast.SubclassSelector{}, sel.SubclassSelectors...)
+			}
+			clone := *class
+			clone.Selectors = outer
+			sel.SubclassSelectors[i].Data = &clone
 		}
 	}
 
